@@ -14,7 +14,9 @@ import (
 
 	"github.com/awslabs/operatorpkg/status"
 	corev1 "k8s.io/api/core/v1"
+	apierrors "k8s.io/apimachinery/pkg/api/errors"
 	metav1 "k8s.io/apimachinery/pkg/apis/meta/v1"
+	"k8s.io/apimachinery/pkg/runtime/schema"
 	"sigs.k8s.io/controller-runtime/pkg/client"
 	"sigs.k8s.io/controller-runtime/pkg/client/interceptor"
 
@@ -72,11 +74,14 @@ type Step struct {
 	Conds       map[string]string `json:"conds"`
 	Type        string            `json:"type"`
 	Status      string            `json:"status"`
-	To          int               `json:"to"`
+	To          int               `json:"to"` // Tick: absolute instant = to seconds + ms milliseconds since the epoch
+	Ms          int               `json:"ms"`
+	Deleting    bool              `json:"deleting"` // Node: already terminating (deleted, lingering behind its finalizer)
 	// reconciles
 	Faults     []FaultSpec `json:"faults"`
 	Prov       string      `json:"prov"`       // provider List (Gc) / Create (Live) outcome: ok|err|...
 	LookupFail []string    `json:"lookupFail"` // Gc: provider ids whose Node lookup fails ("*" = all)
+	LookupErr  string      `json:"lookupErr"`  // kind of that failure: Server (default) | NotFound | Timeout | TooManyRequests
 	Stale      int         `json:"stale"`      // reconcile with the object as last handed to this controller
 }
 
@@ -104,6 +109,7 @@ type sim struct {
 
 	mu         sync.Mutex
 	lookupFail map[string]bool
+	lookupErr  string
 	stepN      int // index of the step being executed (logged on Begin so that traces align with behaviours)
 }
 
@@ -130,8 +136,24 @@ func (s *sim) wrap(c client.Client) client.Client {
 			fail := s.lookupFail[pid] || s.lookupFail["*"]
 			s.mu.Unlock()
 			if fail && act == actorGC {
-				s.w.Emit(trace.M{"e": "Read", "actor": act, "verb": "list", "kind": "Node", "name": pid, "err": "Server", "injected": true})
-				return fmt.Errorf("injected node lookup failure for %s", pid)
+				s.mu.Lock()
+				kind := s.lookupErr
+				s.mu.Unlock()
+				var err error
+				gr := schema.GroupResource{Resource: "nodes"}
+				switch kind {
+				case "NotFound": // NotFound-typed, although a list has no "absent object" answer: the read failed all the same
+					err = apierrors.NewNotFound(gr, pid)
+				case "Timeout":
+					err = apierrors.NewTimeoutError("injected node lookup timeout", 1)
+				case "TooManyRequests":
+					err = apierrors.NewTooManyRequests("injected", 1)
+				default:
+					kind = "Server"
+					err = apierrors.NewInternalError(fmt.Errorf("injected node lookup failure for %s", pid))
+				}
+				s.w.Emit(trace.M{"e": "Read", "actor": act, "verb": "list", "kind": "Node", "name": pid, "err": kind, "injected": true})
+				return err
 			}
 			err := cl.List(ctx, list, opts...)
 			if act == actorGC {
@@ -171,6 +193,7 @@ func (s *sim) arm(actor string, st Step) {
 	for _, p := range st.LookupFail {
 		s.lookupFail[p] = true
 	}
+	s.lookupErr = st.LookupErr
 	s.mu.Unlock()
 }
 
@@ -277,8 +300,10 @@ func (s *sim) step(st Step) error {
 		}
 	case "Node":
 		n := &corev1.Node{
-			ObjectMeta: metav1.ObjectMeta{Name: st.Name, Labels: map[string]string{corev1.LabelHostname: st.Name}},
-			Spec:       corev1.NodeSpec{ProviderID: st.Pid},
+			// registered nodes carry Karpenter's termination finalizer: a deleted Node lingers, terminating, while it drains
+			ObjectMeta: metav1.ObjectMeta{Name: st.Name, Labels: map[string]string{corev1.LabelHostname: st.Name},
+				Finalizers: []string{v1.TerminationFinalizer}},
+			Spec: corev1.NodeSpec{ProviderID: st.Pid},
 			Status:     corev1.NodeStatus{Capacity: world.RL(2000, 4096), Allocatable: world.RL(2000, 4096)},
 		}
 		if st.Pool != "" {
@@ -292,8 +317,18 @@ func (s *sim) step(st Step) error {
 			setNodeCond(n, t, v, now)
 		}
 		w.EnvCreate(n)
+		if st.Deleting {
+			_ = w.Client.Delete(world.WithActor(context.Background(), "env"), n)
+		}
+	case "NodeDelete": // the Node is deleted (lifecycle finalize / an earlier repair wave) and is now terminating
+		n := &corev1.Node{ObjectMeta: metav1.ObjectMeta{Name: st.Name}}
+		if w.Get(n) {
+			_ = w.Client.Delete(world.WithActor(context.Background(), "env"), n)
+		} else {
+			s.skip(st.A, "no-node")
+		}
 	case "Tick":
-		w.Clock.SetTo(world.Epoch.Add(time.Duration(st.To) * time.Second))
+		w.Clock.SetTo(world.Epoch.Add(time.Duration(st.To)*time.Second + time.Duration(st.Ms)*time.Millisecond))
 	case "InstanceGone":
 		if !w.Prov.EnvInstanceGone(st.Pid) {
 			s.skip(st.A, "no-instance")
@@ -358,8 +393,8 @@ func (s *sim) step(st Step) error {
 		s.run(actorExpiration, st.Name, st.Stale, func() error { _, err := s.exp.Reconcile(s.ctx, obj.(*v1.NodeClaim)); return err })
 	case "Gc":
 		s.arm(actorGC, st)
-		if st.Prov == "err" {
-			w.Prov.ListOutcomes = []string{"err"}
+		if st.Prov != "" && st.Prov != "ok" { // err | notfound | notfoundWrapped
+			w.Prov.ListOutcomes = []string{st.Prov}
 		}
 		s.run(actorGC, "-", 0, func() error { _, err := s.gc.Reconcile(s.ctx); return err })
 	case "Repair":
@@ -409,7 +444,11 @@ func RunOne(b Behaviour, tw *trace.Writer) error {
 	// the behaviour itself rides along as a string, so that a failing trace is a self-contained replay
 	beh, _ := json.Marshal(b)
 	tw.Begin(trace.M{"module": "Reapers", "policies": pols, "launchTimeout": lt, "regTimeout": 900, "tag": b.Tag, "beh": string(beh)})
-	w.Sink = tw.Emit
+	// sub-second resolution: every event additionally carries its instant in milliseconds since the epoch
+	w.Sink = func(ev trace.M) {
+		ev["tms"] = int(w.Clock.Now().Sub(world.Epoch) / time.Millisecond)
+		tw.Emit(ev)
+	}
 	w.EnvCreate(world.NodeClass())
 	s.restart()
 	for i, st := range b.Steps {
